@@ -125,7 +125,14 @@ func partFloods(c *check.Ctx, a *acc) {
 	done, wedged := 0, 0
 	workers := 8
 	parallel(workers, workers, func(w int) {
-		p, err := c.WS.StartLab(bin, sut.LabOpts{Name: "flood"})
+		// half of the servers with the periodic workers of a connection (traffic
+		// summary, sync clock) ticking every few milliseconds instead of every
+		// minute / hour: whatever they do runs next to the flood
+		opts := sut.LabOpts{Name: "flood"}
+		if w%2 == 1 {
+			opts.LogSum, opts.Sync = 2*time.Millisecond, 7*time.Millisecond
+		}
+		p, err := c.WS.StartLab(bin, opts)
 		if err != nil {
 			c.Inconc(err.Error())
 			return
@@ -152,7 +159,7 @@ func partFloods(c *check.Ctx, a *acc) {
 	})
 	c.Coverage["flood_trials"] = done
 	c.Coverage["flood_trials_wedged"] = wedged
-	a.add(done, done, "floods: a connection pipelines 260-1160 valid requests, one request that ends the connection and up to 700 more valid ones (pings in no session; 10 KiB custom messages relayed to four members when joined), reading all the while; the server must close the connection and websocket.Handle must return although the receiver may be blocked on the full request queue",
+	a.add(done, done, "floods: a connection pipelines 260-1160 valid requests, one request that ends the connection and up to 700 more valid ones (pings in no session; 10 KiB custom messages relayed to four members when joined), reading all the while (on half of the servers the per-connection periodic workers - traffic summary, sync clock - tick every 2 / 7 ms); the server must keep running, close the connection and websocket.Handle must return although the receiver may be blocked on the full request queue",
 		map[string]any{"engine": "E4 flood", "floods": done})
 }
 
